@@ -2,7 +2,7 @@ from pat import *
 from expr import fmt, walk
 from harness import Skip
 from guards import phi_defs, block_conditions, edge_conditions, dominates_accepts_deep, SWAP
-from rules.common import adapters_in, calls_named, req, strip, S, find_rel_edges
+from rules.common import adapters_in, calls_named, req, strip, S, find_rel_edges, early_exits
 
 INFO = {
     "explanation": "PARTIAL. Decided: the clauses of C10 that are visible in the shape of the code. (G) size and capacity violations "
@@ -514,6 +514,35 @@ def Un(op, p=None):
     return m
 
 
+def run_exhaustive_loops(ctx, rule="R-C10.S"):
+    """every loop of the transform / Lagrange routines runs until its iterator is exhausted (no `break`, no early return):
+    each of them visits every coefficient, node, level or butterfly by definition"""
+    from guards import fmt_cond
+    n = 0
+    for name, idre in (("ntt_internal", r"^ntt::ntt_internal$"), ("ntt_inv_finish", r"^ntt::ntt_inv_finish$"),
+                       ("poly_eval_lagrange_batched", r"^polynomial::poly_eval_lagrange_batched$"),
+                       ("extend_values_to_power_of_2", r"^polynomial::extend_values_to_power_of_2$"),
+                       ("double_evaluations", r"^polynomial::double_evaluations$"),
+                       ("poly_mul_lagrange", r"^polynomial::poly_mul_lagrange$"),
+                       ("nth_root_powers", r"^polynomial::nth_root_powers$")):
+        try:
+            f = ctx.fn(rule, name=name, id_re=idre)
+        except Skip:
+            continue
+        g = ctx.guards(f)
+        b = f.body
+        bad = []
+        nl = 0
+        for lp in b.loops().items():
+            nl += 1
+            bad += early_exits(g, b, lp)
+        n += nl
+        req(ctx, rule, "%s:%s:loops-run-to-exhaustion" % (rule, f.id), not bad, "%d loop(s), each left only when its iterator is exhausted (or by an error)" % nl,
+            "a loop is left early (break / return) on: %s" % sorted(set("%s @%s" % (fmt_cond(e.cond)[:100], e.line) for e in bad)), loc=f.loc)
+    return n
+
+
 def run(ctx):
     run_guards(ctx)
     run_shape(ctx)
+    run_exhaustive_loops(ctx)
